@@ -267,6 +267,7 @@ func driveC15(o opts) error {
 	if o.tier == "thorough" {
 		p.ncases, p.ntxn = 4000, 8
 	}
+	p.extra = c15Create
 	return runTxnHistories(o, p)
 }
 
